@@ -70,3 +70,93 @@ class C05FieldNames(Bounded):
     @staticmethod
     def show(cfg):
         return {k: (v.pattern if hasattr(v, "pattern") else v) for k, v in cfg.items()}
+
+
+@register
+class C05Operators(Bounded):
+    """the comparison a string value is rendered as - equality / match with wildcards in the operand, or startswith / endswith / contains
+    whose operand is taken LITERALLY by the target - read back by the target's rules, denotes the wildcard pattern of the rule value"""
+    id = "C05.bounded.operators"
+    props = ("C05", "C01")
+
+    def run(self, tier, seed):
+        import re
+        from sigma.backends.test import TextQueryTestBackend
+        from sigma.collection import SigmaCollection
+        from sigma.types import SigmaString, SpecialChars
+        pieces = ["a", "b", "*", "?", "\\*", "\\?"]            # (values with a literal backslash are the recorded finding D20 and are left to the main stand-in)
+        maxlen = 4 if tier == "quick" else 5
+        ev = 0
+        fails, seen = [], {}
+
+        def fail(kind, text, inp):
+            seen[kind] = seen.get(kind, 0) + 1
+            if seen[kind] <= 2:
+                fails.append({"text": text, "input": inp})
+
+        def atoms_of_value(v):
+            out = []
+            for p in SigmaString(v).s:
+                if isinstance(p, str):
+                    out += [("L", ch) for ch in p]
+                else:
+                    out.append("WM" if p == SpecialChars.WILDCARD_MULTI else "WS")
+            return out
+
+        def norm(a):            # adjacent multi-character wildcards denote the same pattern as one
+            out = []
+            for x in a:
+                if x == "WM" and out and out[-1] == "WM":
+                    continue
+                out.append(x)
+            return out
+
+        def read(operand, special):
+            out, i = [], 0
+            while i < len(operand):
+                ch = operand[i]
+                if ch == "\\" and i + 1 < len(operand):
+                    out.append(("L", operand[i + 1]))
+                    i += 2
+                elif special and ch == "*":
+                    out.append("WM")
+                    i += 1
+                elif special and ch == "?":
+                    out.append("WS")
+                    i += 1
+                else:
+                    out.append(("L", ch))
+                    i += 1
+            return out
+        rx = re.compile(r'^f(=| (?:match|casematch|startswith|endswith|contains|startswith_cased|endswith_cased|contains_cased) )"(.*)"$', re.S)
+        b = TextQueryTestBackend()
+        for n in range(1, maxlen + 1):
+            import itertools
+            for combo in itertools.product(pieces, repeat=n):
+                v = "".join(combo)
+                for cased in (False, True):
+                    ev += 1
+                    d = {"title": "t", "logsource": {"category": "c"}, "detection": {"s": {"f" + ("|cased" if cased else ""): v}, "condition": "s"}}
+                    try:
+                        q = b.convert(SigmaCollection.from_dicts([d]))[0]
+                    except Exception as e:
+                        fail("error", f"value {v!r}{' (cased)' if cased else ''}: {type(e).__name__}: {e}", [v, cased])
+                        continue
+                    m = rx.match(q)
+                    if not m:
+                        fail("shape", f"value {v!r}{' (cased)' if cased else ''} is rendered as {q!r}, which is none of the comparisons of the test backend", [v, cased])
+                        continue
+                    op, operand = m.group(1).strip(), m.group(2)
+                    kind = op.replace("_cased", "")
+                    if (op in ("casematch",) or op.endswith("_cased")) != cased:
+                        fail("case", f"value {v!r} cased={cased} is rendered with the operator {op!r}", [v, cased])
+                    pat = read(operand, special=kind in ("=", "match", "casematch"))
+                    if kind in ("startswith", "contains"):
+                        pat = pat + ["WM"]
+                    if kind in ("endswith", "contains"):
+                        pat = ["WM"] + pat
+                    if norm(pat) != norm(atoms_of_value(v)):
+                        fail("pattern", f"value {v!r}{' (cased)' if cased else ''} is rendered as {q!r}: the target reads the pattern {norm(pat)} (operands of startswith / endswith / contains are literal), the rule value is {norm(atoms_of_value(v))}", [v, cased])
+        return {"evaluations": ev, "distinct_nontrivial": ev, "failures": fails, "failure_counts": seen,
+                "bound": f"all values of <= {maxlen} pieces over {pieces}, plain and case-sensitive, on the test backend (operators with literal operands)",
+                "rule": "distinct (value, cased)", "samples": [{"value": "a?c*", "query": 'f match "a?c*"'}], "exhaustive": True}
